@@ -276,7 +276,8 @@ Definition redraw_cursor_M (st : state) (c : client) : client := set_M c (redraw
    the option type is kept for the callers, lemma sched_copy_total *)
 Definition sched_copy_client (cur : option cursor_box) (K : region) (dx dy : Z) (c : client)
   : option client :=
-  if cUseCopy c then
+  (* since b141ef8 a client with a scaled view gets the pixels (no exact CopyRect in a scaled picture) *)
+  if cUseCopy c && (match cScaled c with None => true | Some _ => false end) then
     let '(M1, C1) :=
       if negb (rgn_is_empty (cC c)) then
         if negb (cDX c =? dx) || negb (cDY c =? dy)
@@ -297,7 +298,12 @@ Definition sched_copy_client (cur : option cursor_box) (K : region) (dx dy : Z) 
           let M4 := if negb (rgn_is_empty cr2) then rgn_or M3 cr2 else M3 in
           Some (set_regions c M4 C2 dx dy (cR c))
       end
-  else Some (set_M c (rgn_or (cM c) K)).
+  else
+    (* no CopyRect: the destination is simply modified; a copy scheduled earlier (before the client
+       withdrew CopyRect or changed to a scaled view) is turned into modified pixels (b141ef8) *)
+    if negb (rgn_is_empty (cC c))
+    then Some (set_regions c (rgn_or (rgn_or (cM c) (cC c)) K) rgn_empty (cDX c) (cDY c) (cR c))
+    else Some (set_M c (rgn_or (cM c) K)).
 
 Fixpoint map_opt {A B} (f : A -> option B) (l : list A) : option (list B) :=
   match l with
@@ -358,6 +364,12 @@ Definition client_resize (c : client) (W H : Z) : client :=
 
 (* ------------------------------------------------------------------ SetEncodings *)
 (* the message sent by the harness: [CopyRect?; Raw; RichCursor?; NewFBSize?; ExtDesktopSize?] *)
+(* C03-F25 (open): a copy scheduled while the client supported CopyRect is still sent as CopyRect after the
+   client withdrew the encoding (rfbSendFramebufferUpdate never tests useCopyRect).  notes/fix_C03_7.diff
+   turns the pending copy into modified pixels at the end of SetEncodings; notes/fix_C03_7_model.diff
+   flips this flag. *)
+Definition setenc_drops_copy : bool := false.
+
 Definition setenc_client (st : state) (copyrect shape newfb ext : bool) (c : client) : client :=
   (* all flags reset, then one case per encoding in the order above *)
   let c0 := set_flags c copyrect false false (cReady c) false false in
@@ -370,7 +382,9 @@ Definition setenc_client (st : state) (copyrect shape newfb ext : bool) (c : cli
   let c3a := if ext then set_flags c2 (cUseCopy c2) (cShape c2) (cCurChanged c2) (cReady c2) true true
              else c2 in
   (* fix 2b32386: the client no longer draws the cursor itself -> rfbRedrawAfterHideCursor(cl,NULL) *)
-  let c3 := if cShape c && negb (cShape c3a) then redraw_cursor_M st c3a else c3a in
+  let c3b := if cShape c && negb (cShape c3a) then redraw_cursor_M st c3a else c3a in
+  let c3 := if setenc_drops_copy && negb copyrect && negb (rgn_is_empty (cC c3b))
+            then set_regions c3b (rgn_or (cM c3b) (cC c3b)) rgn_empty 0 0 (cR c3b) else c3b in
   (* modelling assumption: a client that does not (or no longer) support NewFBSize knows the
      framebuffer size out of band *)
   if cUseNewFB c3 then c3 else client_resize c3 (sW st) (sH st).
@@ -441,6 +455,13 @@ Definition soft_cursor (st : state) (c1 : client) (U3 : region) : client * regio
 Definition coalesce (st : state) (U : region) : region :=
   if (sMaxRects st >? 0) && (rgn_count U >? sMaxRects st) then rgn_bbox U else U.
 
+(* nRects is a 16-bit field and 0xFFFF means "terminated by LastRect": an update that would announce 65535 or
+   more rectangles (copy rectangles + pixel rectangles + up to 6 pseudo-rectangles) is sent as the bounding
+   box of its pixel region instead (rfbserver.c: "goto countRects" with the bounding box, once) *)
+Definition coalesce16 (st : state) (ncopy : Z) (U : region) : region :=
+  let U1 := coalesce st U in
+  if ncopy + rgn_count U1 + 6 >=? 65535 then rgn_bbox U1 else U1.
+
 (* the part of rfbSendFramebufferUpdate after the early return: C1 = C - M,
    U2 = (slice(M) + C1) & R *)
 (* [ap cf fb copies dx dy raws] = the client's picture after the rectangles of the update; for
@@ -456,7 +477,7 @@ Definition send_update_gen (ap : (Z -> Z -> Z) -> (Z -> Z -> Z) -> list rect -> 
   let M' := r_sub (r_sub (rgn_or M C1) U3) UC in
   let c1 := set_slice (set_regions c M' rgn_empty 0 0 rgn_empty) sy in
   let '(c2, U3c) := soft_cursor st c1 U3 in
-  let U4 := coalesce st U3c in
+  let U4 := coalesce16 st (rgn_count UC) U3c in
   let copies := copy_wrects UC dx dy in
   let raws := filter raw_emitted (rgn_iter false false U4) in
   let nrects := (rgn_count UC + rgn_count U4 + (if sendShape then 1 else 0)) mod 65536 in
@@ -509,7 +530,8 @@ Definition send_client_gen (ap : (Z -> Z -> Z) -> (Z -> Z -> Z) -> list rect -> 
                              (if cUseExt c then 0 else cLastErr c) in
     (* the client's picture changes (content undefined, here 0) only if the size does *)
     let c1 := client_resize c0 W H in
-    Some (c1, Some (1, [if cUseExt c then WExt (cReqChange c) (cLastErr c) aw ah else WNewFB aw ah]))
+    (* rfbSendExtDesktopSize: reason and status go out as 16-bit fields (Swap16IfLE of the int) *)
+    Some (c1, Some (1, [if cUseExt c then WExt (cReqChange c mod 65536) (cLastErr c mod 65536) aw ah else WNewFB aw ah]))
   else
   let sendShape := cShape c && cCurChanged c && cReady c in
   let C1 := r_sub (cC c) (cM c) in
